@@ -115,23 +115,70 @@ func parseHS(b []byte) []byte {
 	return types
 }
 
+// cbRec records what ExportKeyingMaterial returns on the State handed to the application's
+// VerifyConnection callback (the exporter interface as it is reachable during the handshake).
+type cbRec struct {
+	calls int
+	vals  map[string][]byte
+	errs  map[string]string
+}
+
+var exporterLabels = []string{"EXTRACTOR-dtls_srtp", "EXPERIMENTAL-verif"}
+var exporterLens = []int{16, 60}
+
+func (r *cbRec) cb(st *dtls.State) error {
+	r.calls++
+	if r.vals == nil {
+		r.vals, r.errs = map[string][]byte{}, map[string]string{}
+	}
+	for _, label := range exporterLabels {
+		for _, n := range exporterLens {
+			k := fmt.Sprintf("%s/%d", label, n)
+			got, err := st.ExportKeyingMaterial(label, nil, n)
+			if err != nil {
+				r.errs[k] = err.Error()
+				delete(r.vals, k)
+			} else {
+				r.vals[k] = append([]byte(nil), got...)
+				delete(r.errs, k)
+			}
+		}
+	}
+	return nil
+}
+
 // exporterOracle: the exporter output must equal the reference exporter keyed by the session secret and
 // must differ from every public-only derivation (computable from the cleartext hellos alone).
-func exporterOracle(pr *world.Pair) string {
+func exporterOracle(pr *world.Pair, cbs [2]*cbRec) string {
 	sec, ok := pr.GetSecrets()
 	if !ok {
 		return "no secrets available after a completed handshake"
 	}
-	for _, e := range []*world.Endpoint{pr.C, pr.S} {
+	for ei, e := range []*world.Endpoint{pr.C, pr.S} {
 		st, ok := e.Conn.ConnectionState()
 		if !ok {
 			return e.Name + ": ConnectionState unavailable"
 		}
-		for _, label := range []string{"EXTRACTOR-dtls_srtp", "EXPERIMENTAL-verif"} {
-			for _, n := range []int{16, 60} {
-				got, err := st.ExportKeyingMaterial(label, nil, n)
-				if err != nil {
-					return fmt.Sprintf("%s: exporter error %v", e.Name, err)
+		for _, where := range []string{"ConnectionState", "VerifyConnection callback"} {
+		for _, label := range exporterLabels {
+			for _, n := range exporterLens {
+				var got []byte
+				if where == "ConnectionState" {
+					var err error
+					got, err = st.ExportKeyingMaterial(label, nil, n)
+					if err != nil {
+						return fmt.Sprintf("%s: exporter error %v", e.Name, err)
+					}
+				} else {
+					// a refusal (error) inside the callback leaks nothing; a value must be the keyed one
+					if cbs[ei] == nil {
+						continue
+					}
+					v, has := cbs[ei].vals[fmt.Sprintf("%s/%d", label, n)]
+					if !has {
+						continue
+					}
+					got = v
 				}
 				h := sec.Suite.Hash
 				var want []byte
@@ -155,13 +202,14 @@ func exporterOracle(pr *world.Pair) string {
 				}
 				for _, pub := range public {
 					if bytes.Equal(got, pub.val) {
-						return fmt.Sprintf("%s: exported keying material for label %q equals %s: it is computable from the cleartext part of the handshake", e.Name, label, pub.how)
+						return fmt.Sprintf("%s: keying material exported through %s for label %q equals %s: it is computable from the cleartext part of the handshake", e.Name, where, label, pub.how)
 					}
 				}
 				if !bytes.Equal(got, want) {
-					return fmt.Sprintf("%s: exported keying material for label %q (%d bytes) differs from the reference exporter keyed by the session secret", e.Name, label, n)
+					return fmt.Sprintf("%s: keying material exported through %s for label %q (%d bytes) differs from the reference exporter keyed by the session secret", e.Name, where, label, n)
 				}
 			}
+		}
 		}
 	}
 	return ""
@@ -170,7 +218,11 @@ func exporterOracle(pr *world.Pair) string {
 func c07Run(t *testing.T, p *world.PKI, cc cfgCase, clientWrites bool, pos int, follow string, seed uint64) run.Outcome {
 	var o run.Outcome
 	world.Run(t, seed, func(w *world.World) {
-		pr, err := cc.v.Setup(w, p)
+		cbs := [2]*cbRec{{}, {}}
+		vv := cc.v
+		vv.C.Extra = append(append([]dtls.Option(nil), vv.C.Extra...), dtls.WithVerifyConnection(cbs[0].cb))
+		vv.S.Extra = append(append([]dtls.Option(nil), vv.S.Extra...), dtls.WithVerifyConnection(cbs[1].cb))
+		pr, err := vv.Setup(w, p)
 		if err != nil {
 			o.Skip = true
 			return
@@ -335,7 +387,7 @@ func c07Run(t *testing.T, p *world.PKI, cc cfgCase, clientWrites bool, pos int, 
 		}
 		// (d) exporter
 		if pr.BothOK() && !stuck && follow == "" {
-			if m := exporterOracle(pr); m != "" {
+			if m := exporterOracle(pr, cbs); m != "" {
 				viol = append(viol, m)
 			}
 		}
@@ -351,6 +403,13 @@ func c07Run(t *testing.T, p *world.PKI, cc cfgCase, clientWrites bool, pos int, 
 		}
 		o.Sample = map[string]any{"config": cc.name, "writer": x.Name, "position": pos, "follow": follow, "class": o.Class}
 		o.Counters = map[string]int{"records_decoded": len(recs), "marker_records_on_wire": sawMarkerRecord, "marker_delivered": delivered}
+		if pr.BothOK() && !stuck && follow == "" {
+			for i, side := range []string{"client", "server"} {
+				o.Counters["verifyconnection_callback_calls_"+side] += cbs[i].calls
+				o.Counters["verifyconnection_callback_exports_with_value_"+side] += len(cbs[i].vals)
+				o.Counters["verifyconnection_callback_exports_refused_"+side] += len(cbs[i].errs)
+			}
+		}
 		pr.CloseAll()
 	})
 	return o
